@@ -15,6 +15,13 @@ import (
 	"time"
 )
 
+func outDir() string {
+	if d := os.Getenv("VERIF_OUT_DIR"); d != "" {
+		return d
+	}
+	return verifDir()
+}
+
 func verifDir() string {
 	if d := os.Getenv("VERIF_DIR"); d != "" {
 		return d
@@ -95,7 +102,7 @@ func main() {
 		if code >= 2 {
 			exit = 2
 		}
-		b, err := os.ReadFile(filepath.Join(verifDir(), "evidence", e.name+".json"))
+		b, err := os.ReadFile(filepath.Join(outDir(), "evidence", e.name+".json"))
 		if err != nil {
 			fmt.Printf("[C11] engine %s wrote no evidence\n", e.name)
 			exit = 2
@@ -107,7 +114,7 @@ func main() {
 			continue
 		}
 		parts = append(parts, ev)
-		os.Remove(filepath.Join(verifDir(), "evidence", e.name+".json"))
+		os.Remove(filepath.Join(outDir(), "evidence", e.name+".json"))
 	}
 	if len(parts) != len(engines) {
 		os.Exit(2)
@@ -156,7 +163,7 @@ func main() {
 	ev := map[string]any{"property_id": "C11", "tier": mode, "seed": parts[0]["seed"], "level": "exploration", "coverage": cov,
 		"assumptions": []string{"see the per-engine assumptions under coverage.engines"}, "wall_s": time.Since(t0).Seconds(), "violations": viol}
 	b, _ := json.MarshalIndent(ev, "", " ")
-	if err := os.WriteFile(filepath.Join(verifDir(), "evidence", "C11.json"), b, 0o644); err != nil {
+	if err := os.WriteFile(filepath.Join(outDir(), "evidence", "C11.json"), b, 0o644); err != nil {
 		os.Exit(2)
 	}
 	fmt.Printf("[C11] engines=%d evaluations=%d wall=%.1fs exit=%d\n", len(parts), sumInt("evaluations"), time.Since(t0).Seconds(), exit)
